@@ -203,7 +203,7 @@ class C02System(BuilderSystem):
 
 
 ALL_HALTS = list(HALT_CODE)
-QUICK_HALTS = ["pause", "wait-for-bed", "wait-for-motion"]
+QUICK_HALTS = list(HALT_CODE)      # every table entry: a mode missing from a lookup table behaves like "off"
 
 RULE = ("BFS to closure over the interlock alphabet (tool_on/off, power_on/off, coolant_on/off, tool_change, halt x modes, "
         "pause/stop/wait, emergency_halt, interleaved moves/mode/temperature/feed commands and argument-invalid variants) on the real "
